@@ -41,10 +41,13 @@ type verifC20RaftNet struct {
 	faults  int
 	armed   bool
 	sent    int
+	// process tag of the server at an address (verifrt.SetProcess): request handlers
+	// run in the destination's process, not in the caller's
+	procs map[string]int
 }
 
 func verifC20RaftInstall(faults int) *verifC20RaftNet {
-	v := &verifC20RaftNet{servers: map[string]*Server{}, faults: faults}
+	v := &verifC20RaftNet{servers: map[string]*Server{}, faults: faults, procs: map[string]int{}}
 	draws := 0
 	verifrt.Hook("raft-rand", func(n int) int {
 		draws++
@@ -59,7 +62,7 @@ func verifC20RaftInstall(faults int) *verifC20RaftNet {
 		if s == nil || method != "/anndb_pb.NodesManager/AddNode" {
 			return nil, io.ErrClosedPipe
 		}
-		return &verifLiveAddNodeStream{srv: services.NewNodesManagerServer(s.nodesManager), msgs: make(chan *pb.Node, 16), done: make(chan struct{})}, nil
+		return &verifLiveAddNodeStream{srv: services.NewNodesManagerServer(s.nodesManager), msgs: make(chan *pb.Node, 16), done: make(chan struct{}), proc: v.procs[target]}, nil
 	})
 	verifrt.Hook("grpc-invoke", func(target, method string, in, out interface{}) error {
 		if method != "/anndb_pb.RaftTransport/Receive" {
@@ -90,7 +93,9 @@ func verifC20RaftInstall(faults int) *verifC20RaftNet {
 		t := s.zeroGroup.VerifTransport()
 		deliver := func() error {
 			done := make(chan error, 1)
+			proc := v.procs[target]
 			go func() {
+				verifrt.SetProcess(proc)
 				_, err := t.Receive(context.Background(), in.(*pb.RaftMessage))
 				done <- err
 			}()
@@ -121,6 +126,7 @@ type verifLiveAddNodeStream struct {
 	msgs chan *pb.Node
 	done chan struct{}
 	err  error
+	proc int
 }
 
 func (s *verifLiveAddNodeStream) Header() (metadata.MD, error) { return nil, nil }
@@ -132,6 +138,7 @@ func (s *verifLiveAddNodeStream) SendMsg(m interface{}) error {
 }
 func (s *verifLiveAddNodeStream) CloseSend() error {
 	go func() {
+		verifrt.SetProcess(s.proc)
 		s.err = s.srv.AddNode(s.req, &verifLiveAddNodeServerStream{s})
 		close(s.done)
 	}()
@@ -263,7 +270,7 @@ func VerifC20Raft() {
 			return nil
 		}
 		live[id] = s
-		v.servers[addr(id)] = s
+		v.servers[":"+c.Port] = s
 		verifrt.Quiesce()
 		return s
 	}
@@ -271,7 +278,7 @@ func VerifC20Raft() {
 		s := live[id]
 		s.zeroGroup.Stop()
 		delete(live, id)
-		delete(v.servers, addr(id))
+		delete(v.servers, ":"+s.config.Port)
 		verifrt.Quiesce()
 	}
 	// RPCs that propose (join, removal) block inside raft until a leader takes the
@@ -433,7 +440,35 @@ func VerifC20Raft() {
 	}
 	// optional restart of one member
 	rid := uint64(verifrt.IntIn("restart-member", 0, members))
-	if _, ok := live[rid]; ok {
+	if _, ok := live[rid]; ok && verifrt.Bound("readdr", 0) == 1 && len(cfgs[rid].JoinNodes) > 0 && verifrt.Choose("restart-at-new-address", 2) == 1 {
+		// the member comes back on the same data directory but under another address and
+		// joins again: IF that join is acknowledged, everybody has to list the new address
+		if _, member := want[rid]; member {
+			stop(rid)
+			rounds(2)
+			moved := *cfgs[rid]
+			moved.Port = port(rid)[:3] + "1"
+			s := start(rid, &moved)
+			if s == nil {
+				return
+			}
+			jerr, answered := async(s.JoinCluster)
+			if answered && jerr == nil {
+				want[rid] = ":" + moved.Port
+				cfgs[rid] = &moved
+				verifrt.Tag("rejoined-at-new-address")
+			} else {
+				// refused (nothing was acknowledged): the operator goes back to the old address
+				verifrt.Tag("new-address-refused")
+				stop(rid)
+				if start(rid, cfgs[rid]) == nil {
+					return
+				}
+				async(live[rid].JoinCluster)
+			}
+			verifrt.Reach("restarted")
+		}
+	} else if ok {
 		if _, member := want[rid]; member {
 			stop(rid)
 			rounds(2)
